@@ -171,3 +171,41 @@ Lemma recreated_witness :
             c_bk := BPass; c_plans := []; c_udpMin := 0; c_maxSize := 1280 |} 1734 [] =
   [DG 3 2 20 [(0, 1240)] 1262 1280 1280 1 false; DG 4 2 20 [(1240, 494)] 517 535 1200 2 false].
 Proof. vm_compute. reflexivity. Qed.
+
+(** non-vacuity of [random_fits]: Chrome_146's spec (8-byte DCID, no SCID / token, lengths {1,2},
+    Length 1215, up to 3 PING and 13 CRYPTO frames, MinPADDING 2, no plan, maximum 1280) *)
+Lemma vlen_le8 x : vlen x <= 8.
+Proof.
+  unfold vlen. destruct (x <=? maxVarInt1); [lia|]. destruct (x <=? maxVarInt2); [lia|].
+  destruct (x <=? maxVarInt4); [lia|]. destruct (x <=? maxVarInt8); lia.
+Qed.
+
+Lemma random_fits_chrome146 : random_fits (wcfg (BRandom [(1215, 2, 3, 13)]) [1; 2] 0 [] 0) [(1215, 2, 3, 13)].
+Proof.
+  intros i off rf Hi Hoff Hrf.
+  assert (Erf : rf = (1215, 2, 3, 13)).
+  { unfold rfFor in Hrf. cbn [length Z.of_nat Pos.of_succ_nat] in Hrf.
+    destruct (Z.ltb_spec i 0); [lia|].
+    destruct (Z.geb_spec i 1) as [Hg|Hg]; cbn [Z.sub Z.to_nat nth] in Hrf.
+    - inversion Hrf. reflexivity.
+    - replace i with 0 in Hrf by lia. cbn in Hrf. inversion Hrf. reflexivity. }
+  subst rf. clear Hrf.
+  cbn [fst snd planFor wcfg c_plans].
+  split; [reflexivity|]. split; [lia|]. split; [lia|].
+  unfold maxCryptoData. change (vlen 1215) with 2.
+  pose proof (vlen_nonneg (off + 1215)) as H1. pose proof (vlen_le8 (off + 1215)) as H2.
+  set (w := vlen (off + 1215)) in *. change (Z.max 13 1) with 13.
+  assert (En : Z.max (1215 - 3 - 2 - 13 * (1 + w + 2)) 0 = 1215 - 3 - 2 - 13 * (1 + w + 2)) by lia.
+  rewrite En. set (n := 1215 - 3 - 2 - 13 * (1 + w + 2)) in *.
+  assert (Hn : 1067 <= n <= 1171) by (subst n; lia).
+  split; [lia|].
+  assert (Hvn : vlen n = 2) by (apply vlen_mid; lia).
+  rewrite Hvn.
+  pose proof (vlen_nonneg off). pose proof (vlen_le8 off).
+  assert (Hh : 19 <= hdrOf (wcfg (BRandom [(1215, 2, 3, 13)]) [1; 2] 0 [] 0) i <= 20).
+  { unfold hdrOf, pnLenOf, hdrLen. cbn [wcfg c_dcid c_scid c_tokLen c_lens c_single c_ipn c_first].
+    change (vlen 0) with 1.
+    pose proof (peekPnLen_in [1; 2] 0 (pnBase 1) (pnOf (wcfg (BRandom [(1215, 2, 3, 13)]) [1; 2] 0 [] 0) i) ltac:(discriminate)) as Hin.
+    cbn [In] in Hin. destruct Hin as [E | [E | []]]; rewrite <- E; lia. }
+  unfold capAt, capOf. cbn [wcfg c_plans c_maxSize planFor snd Z.gtb Z.compare andb]. unfold overhead, upSealerOverhead. lia.
+Qed.
